@@ -88,6 +88,7 @@ func main() {
 
 	if !r.Thorough() {
 		plan.CorpusDirs = pdiff.CoreCorpusDirs
+		plan.CorpusDirsPerRun = len(pdiff.CoreCorpusDirs) // one `ego test` command line per pass
 		plan.ComboModes = []string{"dynamic"}
 		plan.AllModes = map[string]bool{}
 
